@@ -710,7 +710,7 @@ func getTextContentRecursive(n *html.Node, result *strings.Builder) {
 	}
 }
 
-// getDirectTextContent gets text content from a node, excluding nested block elements.
+// getDirectTextContent gets text content from a node, excluding nested lists.
 func getDirectTextContent(n *html.Node) string {
 	var result strings.Builder
 	for c := n.FirstChild; c != nil; c = c.NextSibling {
@@ -719,8 +719,13 @@ func getDirectTextContent(n *html.Node) string {
 		} else if c.Type == html.ElementNode {
 			// Include inline elements, skip block elements
 			switch c.Data {
-			case "ul", "ol", "div", "p", "table", "blockquote":
-				// Skip these - they're block elements
+			case "ul", "ol":
+				// Nested lists become separate, deeper items
+			case "div", "p", "table", "blockquote":
+				// Block children belong to the item: keep their text, set off by spaces
+				result.WriteString(" ")
+				result.WriteString(getTextContent(c))
+				result.WriteString(" ")
 			default:
 				result.WriteString(getTextContent(c))
 			}
